@@ -20,6 +20,7 @@ import (
 	"bytes"
 	"flag"
 	"fmt"
+	"io"
 	"reflect"
 	"sort"
 	"strconv"
@@ -869,6 +870,67 @@ func keysStream(r *vh.Rng, sum *vh.Summary) {
 	}
 }
 
+// readerSweep: a json document decoded into a struct through a BUFFERED io.Reader must give what the
+// []byte decode gives, wherever the buffer boundary falls: leading whitespace offsets 0..700 move
+// every key across the end of a 256-byte (and a 64-byte) buffer.
+type rdInner struct {
+	Eta   int
+	Theta string `codec:"theta_key"`
+}
+type rdDoc struct {
+	Alpha     int
+	BetaGamma string         `codec:"beta_gamma"`
+	Delta     []int          `json:"delta,omitempty"`
+	Epsilon   map[string]int `codec:"epsilon_map"`
+	Zeta      rdInner
+	Omega     bool `codec:"omega_last_field"`
+}
+
+type plainReader struct{ r io.Reader }
+
+func (p plainReader) Read(b []byte) (int, error) { return p.r.Read(b) }
+
+func readerSweep(sum *vh.Summary) {
+	// the document is longer than the read buffer, so that the buffer is refilled in mid document
+	src := rdDoc{Alpha: 12345, BetaGamma: "some text value that is a little longer than before, to push the document beyond one read buffer",
+		Delta:   []int{1, 2, 3, 4, 5, 6, 7, 8, 9, 10, 11, 12, 13, 14, 15, 16, 17, 18, 19, 20},
+		Epsilon: map[string]int{"first_key": 1, "second_key": 2, "third_key": 3, "fourth_key": 4, "fifth_key": 5, "sixth_key": 6},
+		Zeta:    rdInner{Eta: 77, Theta: "inner text"}, Omega: true}
+	for _, einf := range []bool{false, true} {
+		for _, rbs := range []int{256, 64, -256} { // negative: legal whitespace before every ':'
+			spaced := rbs < 0
+			if spaced {
+				rbs = -rbs
+			}
+			h := handleFor("json", vh.Opts{"ReaderBufferSize": rbs, "ErrorIfNoField": einf, "Canonical": true})
+			doc, err := encode(h, &src)
+			if err != nil {
+				sum.FailC("reader", "reader:encode", "the sweep document does not encode", nil)
+				return
+			}
+			if spaced {
+				doc = bytes.ReplaceAll(doc, []byte(`":`), []byte(`" : `))
+			}
+			var want rdDoc
+			if err := codec.NewDecoderBytes(doc, h).Decode(&want); err != nil || !reflect.DeepEqual(want, src) {
+				sum.FailC("reader", "reader:bytes-decode", "the sweep document does not decode from []byte to the value it encodes", map[string]interface{}{"doc": string(doc)})
+				return
+			}
+			for off := 0; off <= 700; off++ {
+				in := append(bytes.Repeat([]byte{' '}, off), doc...)
+				var got rdDoc
+				err := codec.NewDecoder(plainReader{bytes.NewReader(in)}, h).Decode(&got)
+				if err != nil || !reflect.DeepEqual(got, want) {
+					sum.FailC("reader", "reader:buffered-io.Reader-differs-from-bytes", "a struct decoded from json through a buffered io.Reader differs from the []byte decode",
+						map[string]interface{}{"format": "json", "ReaderBufferSize": rbs, "ErrorIfNoField": einf, "spaced": spaced, "leading_spaces": off, "doc": string(doc),
+							"got": fmt.Sprintf("%+v", got), "err": err != nil, "build": buildName})
+				}
+				sum.Count("reader.json", fmt.Sprintf("reader/%d/%v/%d", rbs, einf, (off+len(doc))%rbs))
+			}
+		}
+	}
+}
+
 func main() {
 	nFields := flag.Int("fields", 300, "random declarations for the field-resolution stream")
 	nEmpty := flag.Int("empty", 300, "values for the emptiness stream")
@@ -888,6 +950,7 @@ func main() {
 	encStream(r.Fork(), *nEnc, cv, sum, &id)
 	decStream(r.Fork(), *nDec, cv, sum, &id)
 	keysStream(r.Fork(), sum)
+	readerSweep(sum)
 	cv.Close()
 	sum.Print()
 }
